@@ -126,7 +126,7 @@ def evaluate(plan, ctx):
 
 
 SUBCHECKS = [
-    SubCheck("history", strategy, evaluate, quick=3000, thorough=50000),
+    SubCheck("history", strategy, evaluate, quick=6000, thorough=50000),
     # thorough tier only: coverage-guided campaign (atheris) over the same generator and oracle
     SubCheck("atheris", strategy, evaluate, 0, 0, external=campaign.atheris_external("C08", "history")),
 ]
